@@ -6,6 +6,7 @@ import ast
 from typing import Any
 
 from ..engine import astq
+from ..engine.cfg import build_cfg, stmt_of
 from ..engine.loader import Func, dotted, norm, walk_no_nested
 from ..engine.report import Check, fkey
 from .c11 import inventory_rules, memo_rules, GU
@@ -75,11 +76,24 @@ def run(chk: Check, ctx: Any) -> None:
             if isinstance(n, ast.Assign) and isinstance(n.targets[0], ast.Subscript) and isinstance(n.targets[0].value, ast.Subscript) \
                     and isinstance(n.targets[0].value.value, ast.Name) and n.targets[0].value.value.id == cache:
                 creates = [m for m in walk_no_nested(fn) if isinstance(m, ast.Assign) and isinstance(m.targets[0], ast.Subscript)
-                           and isinstance(m.targets[0].value, ast.Name) and m.targets[0].value.id == cache and isinstance(m.value, ast.Dict)
-                           and m.lineno < n.lineno]
-                chk.decide("C12-R2", fkey(f, n, "sub-table-exists"), bool(creates), f,
-                           "the per-graph sub-table is written without being created in this function: if another call removed it in between, "
-                           "the write raises KeyError", "sub-table created earlier in the same function", node=n)
+                           and isinstance(m.targets[0].value, ast.Name) and m.targets[0].value.id == cache and isinstance(m.value, ast.Dict)]
+
+                def ensures(x: object, creates: list[ast.Assign] = creates) -> bool:
+                    # an unconditional creation, or `if id(g) not in cache: cache[id(g)] = {}` taken as a whole
+                    if any(x is c for c in creates):
+                        return True
+                    return isinstance(x, ast.If) and isinstance(x.test, ast.Compare) and isinstance(x.test.ops[0], ast.NotIn) and cache in norm(x.test) \
+                        and any(c in x.body for c in creates)
+                cfg = build_cfg(fn)
+                st = stmt_of(cfg, n)
+                if st is None or not creates:
+                    ok2 = bool(creates) and None
+                else:
+                    ok2 = not cfg.path_avoiding(cfg.entry, st, ensures)
+                chk.decide("C12-R2", fkey(f, n, "sub-table-exists"), ok2 if creates else False, f,
+                           "the per-graph sub-table is written on a path on which this call has not made sure it exists (creation skipped or conditional): "
+                           "when another thread holds the lock or cleared the table the write raises KeyError and the routine falls back to SsbScript",
+                           "every path to the write passes the creation of the sub-table", node=n)
         for n in walk_no_nested(fn):
             if isinstance(n, ast.With) and any("cache_lock" in norm(i.context_expr) for i in n.items):
                 lock_sites.append(f"{fname}:{n.lineno}")
